@@ -42,7 +42,7 @@ def patterns():
 
 def run(chk):
     th = build("plain")
-    n = 10000 if chk.thorough else 500
+    n = 2000 if chk.thorough else 500      # (10000 was tried: TLC needs more than its 25 minutes for the 160 MB of tables)
     gen_progs = sem.generate(chk.seed + 8, n, canon=False) + sem.generate(chk.seed + 9, n // 3, canon=True)
     items = patterns() + [("gen%d" % p["seed"], {"files": p["files"], "main": p["main"]}) for p in gen_progs]
     recs, rc, err = run_th(th, ["compile", "--prog"], [dict(s, i=i) for i, (_, s) in enumerate(items)], timeout=900)
